@@ -65,6 +65,19 @@ Theorem C06_setup_calls_every_custom_member_once_in_order :
 Proof. exact sd_setup_calls_are_the_custom_members. Qed.
 Print Assumptions C06_setup_calls_every_custom_member_once_in_order.
 
+(* World::exec (setup, fetch, closure): when the closure returns or unwinds the value is dropped and the
+   world is exactly the world after setup with nothing borrowed; likewise if the fetch itself panics *)
+Theorem C06_exec_returns_the_setup_world_unborrowed :
+  forall dflt d w w' gs, inv w -> guards w = [] -> sd_exec dflt d w = (w', inl gs) ->
+  cells (drop_guards gs w') = cells (sd_setup dflt d w) /\ guards (drop_guards gs w') = [].
+Proof. exact sd_exec_returns_setup_world. Qed.
+Print Assumptions C06_exec_returns_the_setup_world_unborrowed.
+Theorem C06_exec_whose_fetch_panics_leaves_the_setup_world_unborrowed :
+  forall dflt d w w' p, inv w -> guards w = [] -> sd_exec dflt d w = (w', inr p) ->
+  cells w' = cells (sd_setup dflt d w) /\ guards w' = [].
+Proof. exact sd_exec_fetch_panic_clean. Qed.
+Print Assumptions C06_exec_whose_fetch_panics_leaves_the_setup_world_unborrowed.
+
 Example C06_example :
   let d := STuple [SRead 0 HDefault; STuple [SOptWrite 1; SUnit; SWrite 2 HPanic]; SPhantom; SOptRead 3] in
   sd_reads d = [0; 3]%N /\ sd_writes d = [1; 2]%N /\
